@@ -568,18 +568,18 @@ theorem open_files_le_files (mode : LineMode) (fs : FS) (dirs : List (List Char)
   have h := (readFileG_fd mode fs dirs (fuelFor fs) f (c, {})).2
   simpa [fuelFor] using h
 
-/-! ### the streams `read_wcoll` opens itself (F10-TOPFD) -/
+/-! ### the streams `read_wcoll` opens itself (closed again since 8d15944; F10-TOPFD was their leak) -/
 
 /-- the ghost count next to the option processing does not influence it -/
-theorem top_stream_ghost_erasable (closeTop : Bool) (mode : LineMode) (fs : FS) (stdin : List Char)
+theorem top_stream_ghost_erasable (leak : Bool) (mode : LineMode) (fs : FS) (stdin : List Char)
     (opts : List Opt) (env : Option (List Char)) :
-    (assembleOptsT closeTop mode fs stdin opts env).1 = assembleOpts mode fs stdin opts env :=
-  assembleOptsT_fst closeTop mode fs stdin opts env
+    (assembleOptsT leak mode fs stdin opts env).1 = assembleOpts mode fs stdin opts env :=
+  assembleOptsT_fst leak mode fs stdin opts env
 
-/-- with `fclose (fp)` added to `read_wcoll`, no stream opened for a `^file`, an exclusion file or WCOLL is
-left open, whatever the command line -/
+/-- THE CODE (`read_wcoll` since /repo 8d15944: `if (f == NULL) fclose (fp)`): no stream opened for a `^file`,
+an exclusion file or WCOLL is left open, whatever the command line -/
 theorem top_streams_closed (mode : LineMode) (fs : FS) (stdin : List Char) (opts : List Opt)
-    (env : Option (List Char)) : (assembleOptsT true mode fs stdin opts env).2 = 0 := by
+    (env : Option (List Char)) : (assembleOptsT false mode fs stdin opts env).2 = 0 := by
   simp only [assembleOptsT]
   have h := foldl_optProcessT_closed mode fs opts ({ stdin := stdin }, 0)
   split
@@ -588,12 +588,13 @@ theorem top_streams_closed (mode : LineMode) (fs : FS) (stdin : List Char) (opts
     · exact h
     · simp [h]
 
-/-- F10-TOPFD (witness): as found, `read_wcoll` never closes the stream it opened — `-w ^d/A,^d/B -x ^d/C`
-leaves three descriptors open (stdin `-` none); 60 file sources under `ulimit -n 40` end in "Too many open
-files" on the real pdsh (pinned by checks/c10.py) -/
+/-- F10-TOPFD (witness; repaired by /repo 8d15944): BEFORE that commit `read_wcoll` never closed the stream it
+opened — `-w ^d/A,^d/B -x ^d/C` left three descriptors open (stdin `-` none); 60 file sources under `ulimit -n 40`
+ended in "Too many open files" on the real pdsh.  checks/c10.py pins those command lines in every run: a tree
+that loses the `fclose` again is reported with them -/
 theorem top_streams_leak_witness :
-    (assembleOptsT false repairedReader demoFS [] [.w "^d/A,^-,^d/B".toList, .x "^d/C".toList] none).2 = 3 ∧
-    (assembleOptsT false repairedReader demoFS [] [] (some "d/A".toList)).2 = 1 := by decide
+    (assembleOptsT true repairedReader demoFS [] [.w "^d/A,^-,^d/B".toList, .x "^d/C".toList] none).2 = 3 ∧
+    (assembleOptsT true repairedReader demoFS [] [] (some "d/A".toList)).2 = 1 := by decide
 
 /-- three files that name one another in every way (cycle, diamond): three streams at most, none left open -/
 example : (readFileG shipped demoFS ["d".toList] (fuelFor demoFS) "A".toList ({}, {})).2 = ⟨0, 3⟩ := by decide
